@@ -178,6 +178,9 @@ type issuer struct {
 	// anchorsUseKit: the trust-anchor source is itself built on the library - it PEM-encodes its CA with
 	// kit's crypto/pem on every call (and so touches whatever package-level state that encoder has)
 	anchorsUseKit bool
+	// closing: the harness is about to end Run's context (from then on a trust-anchor source that honours
+	// its context may legitimately refuse)
+	closing atomic.Bool
 	// onLog: called by the log sink handed to the SPIFFE object for every line it reports
 	onLog func(msg string)
 	// chainShape: what the issued chain looks like beyond the leaf. "plain" = [leaf, intermediate];
@@ -370,7 +373,14 @@ type anchors struct{ is *issuer }
 func (a anchors) GetX509BundleForTrustDomain(spiffeid.TrustDomain) (*x509bundle.Bundle, error) {
 	return nil, errors.New("not used")
 }
-func (a anchors) CurrentTrustAnchors(context.Context) ([]byte, error) {
+func (a anchors) CurrentTrustAnchors(ctx context.Context) ([]byte, error) {
+	// a source that honours the context it is given (the library's own file-backed source selects on
+	// ctx.Done()): while Run's context is alive, the context handed to the source is alive
+	if err := ctx.Err(); err != nil && !a.is.closing.Load() {
+		rec.Count("anchors.observed.asked_with_an_ended_context_while_run_is_live", 1)
+		return nil, fmt.Errorf("trust anchors: %w", err)
+	}
+	rec.Count("anchors.asked_with_a_live_context", 1)
 	if a.is.anchorsFail.Swap(false) {
 		return nil, fmt.Errorf("trust anchors: scripted failure: %w", []error{errors.New("unavailable"), context.DeadlineExceeded, context.Canceled}[int(a.is.anchorsV.Load()+int64(len(a.is.snapshot())))%3])
 	}
@@ -451,7 +461,7 @@ func TestCheck(t *testing.T) {
 	defer rec.Close()
 	initCA()
 	rec.Note("rule", "a case is one scenario against the real SPIFFE object in a synctest bubble with a scripted issuer signing real SVIDs: (order) each of the six first-call orders of Run / Ready / GetX509SVID from separate goroutines x initial fetch succeeding or failing x consumer additionally parked inside GetX509SVID while it holds the read lock; (renewal) a seeded script of 3-8 issuer outcomes (validity windows from 2 s to 30 days, already past half-life, expired, not yet valid; failures: an issuer error, an empty answer, or a signed chain without a usable SPIFFE ID) with the virtual clock advanced in seeded steps of seconds to hours, optionally writing the identity to a directory and rotating the trust anchors. Non-trivial = the issuer received at least one request; distinct = distinct scenario description.")
-	rec.Note("require", []string{"order.get_first", "files.chain_shape.plain", "files.chain_shape.with-root", "files.chain_shape.rollover", "files.chain_shape.same-dn-leaf", "order.ready_first", "order.run_first", "order.initial_fetch_failed", "order.second_run_refused", "order.run_context_ended_during_initial_fetch", "order.consumer_parked_with_rlock", "renewal.requests", "renewal.on_time", "renewal.retry_after_failure", "renewal.served_latest_checked", "renewal.fresh_keys_checked", "renewal.unusable_answer_scripted", "renewal.get_during_inflight_renewal", "renewal.reader_parked_across_renewal", "renewal.consumer_get_at_publication", "files.sets_checked", "anchors.source_uses_kit_pem_encoder", "files.undisturbed_after_failed_fetch", "issuer.error_returned_with_a_usable_chain", "issuer.error_is_a_wrapped_deadline_exceeded", "issuer.error_is_a_wrapped_canceled", "renewal.get_while_component_logs", "order.initial_fetch_failed_at_publication.identity-dir-unwritable", "order.initial_fetch_failed_at_publication.anchors-unavailable"})
+	rec.Note("require", []string{"order.get_first", "files.chain_shape.plain", "files.chain_shape.with-root", "files.chain_shape.rollover", "files.chain_shape.same-dn-leaf", "order.ready_first", "order.run_first", "order.initial_fetch_failed", "order.second_run_refused", "order.run_context_ended_during_initial_fetch", "order.consumer_parked_with_rlock", "renewal.requests", "renewal.on_time", "renewal.retry_after_failure", "renewal.served_latest_checked", "renewal.fresh_keys_checked", "renewal.unusable_answer_scripted", "renewal.get_during_inflight_renewal", "renewal.reader_parked_across_renewal", "renewal.consumer_get_at_publication", "files.sets_checked", "anchors.source_uses_kit_pem_encoder", "files.undisturbed_after_failed_fetch", "anchors.asked_with_a_live_context", "issuer.error_returned_with_a_usable_chain", "issuer.error_is_a_wrapped_deadline_exceeded", "issuer.error_is_a_wrapped_canceled", "renewal.get_while_component_logs", "order.initial_fetch_failed_at_publication.identity-dir-unwritable", "order.initial_fetch_failed_at_publication.anchors-unavailable"})
 	ps := plans()
 	rec.Planned(len(ps))
 	for idx, pl := range ps {
@@ -597,6 +607,7 @@ func orderScenario(w *world, pl plan, bubble bool) (candidate string) {
 	if pl.cancelEarly {
 		w.step("Run's context ends while the initial request is with the issuer")
 		rec.Count("order.run_context_ended_during_initial_fetch", 1)
+		is.closing.Store(true)
 		cancel()
 		settle()
 	}
@@ -681,6 +692,7 @@ func orderScenario(w *world, pl plan, bubble bool) (candidate string) {
 			}
 		}
 	}
+	is.closing.Store(true)
 	cancel()
 	if !pl.fail {
 		settle()
@@ -1087,6 +1099,7 @@ func runRenewal(t *testing.T, idx int, rng *mon.RNG) {
 				}
 			}
 		}
+		is.closing.Store(true)
 		cancel()
 		time.Sleep(5 * time.Millisecond) // a request in flight takes 1 ms of virtual time
 		synctest.Wait()
